@@ -85,8 +85,9 @@ def side_effect_sweep(chk, MX, n):
         chk.case(dict(analysis=an, multi=multi, wind=wind, digest=common.hashlib.sha1(json.dumps([sd, acs], sort_keys=True, default=str).encode()).hexdigest()[:8]),
                  nontrivial=True)
         chk.count("analysis=%s/%s" % (an, "wind" if wind else "still"))
-        if an in ("state_derivatives", "state_derivatives_all", "pitch_trim_orient_noset"):
-            # the two analyses that go through set_state with a keyword dictionary: the object's complete state against Model/Restore.v
+        if an in ("state_derivatives", "state_derivatives_all", "pitch_trim_orient_noset", "export_pylot_model"):
+            # the analyses that go through set_state with a keyword dictionary (export_pylot_model since fix 13935a1): the object's complete
+            # state against Model/Restore.v
             for nm in before:
                 RESTORE_CASES.append("chk_restore %s %s" % (cfs(before[nm]), cfs(after[nm])))
                 RESTORE_DESCR.append(dict(analysis=an, aircraft=nm, rate_frame=before[nm]["rate_frame"]))
